@@ -1,5 +1,5 @@
 """C03 - identifiers stay stable through the whole simulation lifecycle."""
-from .common import cli_main, all_eq, concrete_screen
+from .common import cli_main, cli_argv, all_eq, concrete_screen
 
 PROPERTY = "C03"
 LEVEL = "model_checking"
@@ -7,7 +7,7 @@ FUNCTIONS = [
     "batchie.retrospective.create_plate_balanced_holdout_set_among_masked_plates / create_random_holdout",
     "batchie.retrospective.reveal_plates / mask_screen / unmask_screen",
     "batchie.data.Screen.save_h5 / load_h5 / __init__ (with supplied mappings)",
-    "batchie.cli.reveal_plate.main (argument parser stubbed)",
+    "batchie.cli.reveal_plate.main (through get_parser / get_args with sys.argv set; class lookup by name answered from the loaded modules)",
     "batchie.models.sparse_combo.predict (consequence clause)",
 ]
 BOUNDS = {
@@ -171,7 +171,7 @@ def h_life(ctx, cfg):
             else:
                 fin, fout = ctx.tmp("in_%d.h5" % step), ctx.tmp("out_%d.h5" % step)
                 cur.save_h5(fin)
-                cli_main(ctx, "batchie.cli.reveal_plate", screen=fin, output=fout, plate_id=[pid])
+                cli_argv(ctx, "batchie.cli.reveal_plate", ["--screen", fin, "--output", fout, "--plate-id", pid])
                 cur = data.Screen.load_h5(fout)
                 label = "the reveal_plate command"
         elif op == 1:
